@@ -10,7 +10,7 @@ func init() {
 	register(&PropDef{
 		ID:    "C06",
 		Pkgs:  []string{"grpc"},
-		Claim: "Decides the structural part: the message body is read only after the declared length was compared with the platform maximum and with the receive limit (refusing arms return RESOURCE_EXHAUSTED) and exactly the declared length is read; decompressed output is read through a reader limited to limit+1 bytes (both the registered-compressor path and the legacy gzip path) and re-checked against the limit before the success return; the payload-format check precedes decompression and fails closed on unknown flags; writer and reader agree on the 5-byte header layout; the limit reaching the reader is the stream's configured receive limit at all five receive sites.",
+		Claim: "Decides the structural part: the message body is read only after the declared length was compared with the platform maximum and with the receive limit (refusing arms return RESOURCE_EXHAUSTED) and exactly the declared length is read; decompressed output is read through a reader limited to limit+1 bytes (both the registered-compressor path and the legacy gzip path) and re-checked against the limit before the success return; the payload-format check precedes decompression and fails closed on unknown flags; writer and reader agree on the 5-byte header layout; the limit reaching the reader is the stream's configured receive limit at all five receive sites. No success return follows a failed read, decompression or compression step; 'a decompressor is available' means a registered compressor or a legacy decompressor; a body cut short is an unexpected EOF.",
 		NotDecided:  []string{"round-trip equality of message bytes for arbitrary segmentation of the byte stream (value property)", "behaviour of third-party legacy Decompressor implementations (not size-aware by interface)"},
 		Assumptions: []string{"io.LimitReader, io.ReadAll and mem.ReadAll behave as documented", "encoding/binary.BigEndian reads/writes 4 bytes big-endian"},
 		Technique:   "static analysis: dominating guards on go/ssa branch facts, value-origin of reader and length arguments, constant-flow of status codes, fail-closed switch check",
